@@ -511,7 +511,9 @@ std::string fit_gboost(toks_t& toks)
 
     auto tuner = tuner_t::all().get("surrogate");
     tuner->parameter("tuner::max_evals") = 10;
-    const auto fit_params = ml::params_t{}.splitter(*splitter).tuner(*tuner).logger(make_null_logger());
+    auto solver = solver_t::all().get("lbfgs");
+    solver->parameter("solver::max_evals") = 300; // the quality of the fit is not the subject
+    const auto fit_params = ml::params_t{}.splitter(*splitter).tuner(*tuner).solver(*solver).logger(make_null_logger());
     const auto result     = model.fit(dataset, samples, *loss, fit_params);
     remove_logs(result);
 
@@ -634,7 +636,7 @@ std::string fit_linear(toks_t& toks)
     model->parameter("linear::batch")      = batch;
     model->parameter("linear::scaling")    = scaling;
     solver->parameter("solver::epsilon")   = 1e-8;
-    solver->parameter("solver::max_evals") = 2000;
+    solver->parameter("solver::max_evals") = 300; // the quality of the fit is not the subject
 
     auto tuner = tuner_t::all().get("surrogate");
     tuner->parameter("tuner::max_evals") = 10;
